@@ -18,7 +18,7 @@ ASSUMPTIONS = ["np.concatenate of tables / table[:n] / table[n:] / len(table) ac
                "termination of the stream is not proved"]
 NOT_PROVED = ["streamable reductions (mean, bincount, histogram, k-mer counts), group-by on a sorted key, computation graph lock-step, "
               "per-chromosome pipelines: bounded (rtc/enum_c11.py) - additivity of the NumPy reductions is outside this family's reach here",
-              "chunk_lines (file buffers) : bounded"]
+              "chunk_lines is proved on the row abstraction (a FileBuffer is its sequence of lines; len / slicing / np.concatenate act on it: assumed)"]
 
 
 class St(types.SimpleNamespace):
@@ -152,3 +152,91 @@ bincount_reduce = Contract("C11.bincount_reduce", target=lambda: _red().bincount
                            canaries=[("shorter operand returned", "        return bincount_a", "        return bincount_b"),
                                      ("tail of the longer lost", "bincount_b[:bincount_a.size] += bincount_a", "bincount_b = bincount_b[:bincount_a.size] + bincount_a")])
 CONTRACTS.append(bincount_reduce)
+
+
+# --- chunk_lines (io/parser.py): re-chunking a stream of file buffers to exactly n lines per chunk ---------------------------------------------
+# Same abstraction and the same clauses as _chunk_entries: nothing lost, duplicated or reordered; every chunk yielded inside the loops has exactly
+# n lines (only the final flush may have fewer).  Nested loops: an invariant for the `for` over the incoming buffers and one for the inner `while`.
+def _cl_target():
+    from bionumpy.io import parser
+    return parser.chunk_lines
+
+
+def _cl_content(st, env, b, chunk=None):
+    out = st.OUT.cat
+    b = types.SimpleNamespace(cat=b.cat)      # freeze: the list object is appended to later, the hypotheses are instantiated lazily
+
+    def trig(arr):
+        probe = arr.at(z3.Int("probe"))
+        return [probe.decl()] if z3.is_app(probe) and probe.num_args() == 1 and probe.decl().kind() == z3.Z3_OP_UNINTERPRETED else []
+    goals = [("yielded.prefix", Forall(lambda k: Implies(in_range(k, out.length), out.at(k) == st.IN(k)), triggers=trig(out))),
+             ("held.lines.are.the.next.input.lines", Forall(lambda k: Implies(in_range(k, b.cat.length), b.cat.at(k) == st.IN(I(out.length) + I(k))), triggers=trig(b.cat)))]
+    if chunk is not None:
+        goals.append(("rest.of.the.current.buffer.follows", Forall(lambda k: Implies(in_range(k, chunk.length), chunk.at(k) == st.IN(I(out.length) + I(b.cat.length) + I(k))), triggers=trig(chunk))))
+    return goals
+
+
+def _cl_inv_outer(st):
+    def inv(ip, env):
+        b = as_catlist(env.vars["cur_buffers"])
+        it, rem = env.vars["_it"], env.vars["remaining_lines"]
+        out = st.OUT.cat
+        return [("sizes", And(I(out.length) >= 0, I(b.cat.length) >= 0, I(out.length) + I(b.cat.length) == st.S(I(it)))),
+                ("remaining = n - held, at least 1", And(I(rem) >= 1, I(rem) == st.n - I(b.cat.length)))] + _cl_content(st, env, b)
+    return inv
+
+
+def _cl_havoc_common(ip, env, st):
+    c = ip.ctx
+    g, h = c.fresh_fun("held"), c.fresh_fun("out")
+    nb, no, cb, co = c.fresh_int("heldlen"), c.fresh_int("outlen"), c.fresh_int("heldcount"), c.fresh_int("outcount")
+    env.vars["cur_buffers"] = CatList(cb, SArr.fresh(nb, lambda k: g(I(k))))
+    st.OUT = CatList(co, SArr.fresh(no, lambda k: h(I(k))))
+    env.vars["remaining_lines"] = c.fresh_int("remaining_lines")
+    c.assume(cb >= 0, co >= 0)
+
+
+def _cl_havoc_outer(st):
+    def havoc(ip, env):
+        _cl_havoc_common(ip, env, st)
+        env.vars.pop("chunk", None)
+    return havoc
+
+
+def _cl_inv_inner(st):
+    def inv(ip, env):
+        b = as_catlist(env.vars["cur_buffers"])
+        it, rem, chunk, nl = env.vars["_it"], env.vars["remaining_lines"], env.vars["chunk"], env.vars["n_lines_in_chunk"]
+        out = st.OUT.cat
+        return [("sizes", And(I(out.length) >= 0, I(b.cat.length) >= 0, I(chunk.length) >= 0,
+                              I(out.length) + I(b.cat.length) + I(chunk.length) == st.S(I(it) + 1), I(nl) == I(chunk.length))),
+                ("remaining = n - held, at least 1", And(I(rem) >= 1, I(rem) == st.n - I(b.cat.length)))] + _cl_content(st, env, b, chunk)
+    return inv
+
+
+def _cl_havoc_inner(st):
+    def havoc(ip, env):
+        _cl_havoc_common(ip, env, st)
+        c = ip.ctx
+        f, nc = c.fresh_fun("rest"), c.fresh_int("restlen")
+        env.vars["chunk"] = SArr.fresh(nc, lambda k: f(I(k)))
+        env.vars["n_lines_in_chunk"] = c.fresh_int("n_lines_in_chunk")
+    return havoc
+
+
+def _setup_cl(ctx):
+    st = _setup(ctx)
+    ctx.ip.loop_specs.pop(("_chunk_entries", 0), None)
+    outer = _Spec(_cl_inv_outer(st), _cl_havoc_outer(st))
+    outer.st = st
+    ctx.ip.loop_specs[("chunk_lines", 0)] = outer
+    ctx.ip.loop_specs[("chunk_lines", 1)] = LoopSpec(_cl_inv_inner(st), _cl_havoc_inner(st))
+    return st
+
+
+chunk_lines = Contract("C11.chunk_lines", target=_cl_target, setup=_setup_cl, requires=_req, ensures=_ens,
+                       generator=GeneratorSpec(_on_yield),
+                       canaries=[("rest of the buffer starts one late", "chunk = chunk[remaining_lines:]", "chunk = chunk[remaining_lines + 1:]"),
+                                 ("counter not reset after a full chunk", "            remaining_lines = n_lines", "            remaining_lines = n_lines - 1"),
+                                 ("held lines dropped at a chunk boundary", "        cur_buffers.append(chunk)", "        cur_buffers = [chunk]")])
+CONTRACTS.append(chunk_lines)
